@@ -175,6 +175,11 @@ class Folder:
             if isinstance(fn, ast.Name) and fn.id == 'str' and len(e.args) == 1 and not e.keywords:
                 v = self._fold(e.args[0], mod, cls, env)
                 return str(v) if isinstance(v, (str, int)) and not isinstance(v, bool) else UNKNOWN
+            if isinstance(fn, ast.Name) and fn.id == 'slice' and 1 <= len(e.args) <= 3 and not e.keywords:
+                vs = [self._fold(a, mod, cls, env) for a in e.args]
+                if all(v is None or (isinstance(v, int) and not isinstance(v, bool)) for v in vs):
+                    return slice(*vs)
+                return UNKNOWN
             if isinstance(fn, ast.Name) and fn.id == 'range' and 1 <= len(e.args) <= 3 and not e.keywords:
                 vs = [self._fold(a, mod, cls, env) for a in e.args]
                 if all(isinstance(v, int) and not isinstance(v, bool) for v in vs) and (len(vs) < 3 or vs[2] != 0):
@@ -291,6 +296,8 @@ class Folder:
                 return base[slice(*parts)]
             i = self._fold(e.slice, mod, cls, env)
             if isinstance(i, int) and not isinstance(i, bool) and -len(base) <= i < len(base):
+                return base[i]
+            if isinstance(i, slice):
                 return base[i]
             return UNKNOWN
         if isinstance(e, ast.Compare) and len(e.ops) == 1:
